@@ -436,6 +436,43 @@ def foreign_guides(prs, rnd):
     return n
 
 
+def thin_data_labels(prs, rnd):
+    """Pre-state: plot-level c:dLbls as a frugal producer writes them - some of the optional c:showXxx switches left out, or
+    (what PowerPoint writes for labels that were deleted) nothing but <c:delete val="1"/>.  Every member of the group is
+    optional; a part that validated before must validate after, else the change is undone.  -> number of c:dLbls thinned."""
+    import copy
+
+    from vlib import xsdkit
+
+    C = "{http://schemas.openxmlformats.org/drawingml/2006/chart}"
+    n = 0
+    for ch in _charts(prs):
+        root = ch._chartSpace
+        before = xsdkit.validate_part(ch.part.blob)[0]
+        for dl in root.iter(C + "dLbls"):
+            if not dl.getparent().tag.endswith("Chart"):
+                continue
+            saved = [copy.deepcopy(c) for c in dl]
+            if rnd.random() < 0.35:
+                for c in list(dl):
+                    dl.remove(c)
+                d = dl.makeelement(C + "delete", {"val": "1"})
+                dl.append(d)
+            else:
+                shows = [c for c in dl if isinstance(c.tag, str) and c.tag[len(C):].startswith("show")]
+                for c in rnd.sample(shows, rnd.randint(1, len(shows))) if shows else ():
+                    dl.remove(c)
+            after = xsdkit.validate_part(ch.part.blob)[0]
+            if before is not None and after is not None and xsdkit.new_errors(before, after):
+                for c in list(dl):
+                    dl.remove(c)
+                for c in saved:
+                    dl.append(c)
+            else:
+                n += 1
+    return n
+
+
 def strip_optional_attributes(prs, rnd):
     """Pre-state: the deck as a frugal producer writes it - optional attributes (those the schema gives a default or none at
     all) dropped from a random half of the elements python-pptx has classes for.  Each part must validate as well as before,
@@ -1033,6 +1070,8 @@ def run_unit(unit, tier, seed, acc):
                             ch.category_axis.tick_labels.offset = 50
                     if i % 5 == 4 and strip_optional_attributes(run.prs, env.rng("C12a", seed, i)):
                         acc.count("generated_decks_with_optional_attributes_stripped")
+                    if i % 4 == 1 and thin_data_labels(run.prs, env.rng("C12d", seed, i)):
+                        acc.count("generated_decks_with_thinned_data_labels")
                     if i % 4 == 1 and link_chart_titles(run.prs):
                         acc.count("generated_decks_with_cell_linked_chart_titles")
                     buf = io.BytesIO()
